@@ -35,14 +35,28 @@ SimBase == [instProp |-> T, mode |-> "all", targets |-> <<>>, items |-> <<>>, th
             allCompliant |-> TRUE, keepLess |-> TRUE, discardUseless |-> TRUE, allowOpt |-> TRUE, disableExact |-> FALSE,
             disableOr |-> TRUE, redundantOr |-> FALSE, removeEmpty |-> TRUE, cap |-> 0, ignoreNs |-> <<>>, salt |-> 0,
             decimals |-> -1]
+NoSel == <<"ANY", "">>
+FocusSel == <<"FOCUS", "">>
+ItemNode(l, n) == [label |-> EX \o "shapes/" \o l, kind |-> "node", node |-> n, ps |-> NoSel, pp |-> "", po |-> NoSel]
+ItemPat(l, s_, p_, o_) == [label |-> EX \o "shapes/" \o l, kind |-> "pattern", node |-> <<"IRI", "">>, ps |-> s_, pp |-> p_, po |-> o_]
+SimModes == {<<"all", <<>>, <<>>>>, <<"classes", <<EX \o "C">>, <<>>>>, <<"classes", <<EX \o "D", EX \o "C">>, <<>>>>,
+             \* shape maps: node selectors, a triple pattern with the focus as subject / as object, two labels sharing a node
+             <<"shapemap", <<>>, <<ItemNode("L0", a), ItemNode("L0", b), ItemNode("L1", c)>>>>,
+             <<"shapemap", <<>>, <<ItemPat("L0", FocusSel, P1, NoSel), ItemNode("L1", a)>>>>,
+             <<"shapemap", <<>>, <<ItemPat("L0", NoSel, P2, FocusSel), ItemPat("L1", FocusSel, T, CA)>>>>,
+             <<"mixed", <<>>, <<ItemNode("L0", a), ItemNode("L0", u)>>>>}
 SimCfgs == {[SimBase EXCEPT !.thr = t, !.keepLess = kl, !.discardUseless = du, !.allCompliant = ac, !.allowOpt = ao, !.disableExact = de,
-                            !.inverse = iv, !.mode = md[1], !.targets = md[2], !.cap = cp] :
+                            !.inverse = iv, !.mode = md[1], !.targets = md[2], !.items = md[3], !.cap = cp,
+                            !.disableOr = ors[1], !.redundantOr = ors[2], !.removeEmpty = re] :
               t \in {<<0, 1>>, <<1, 3>>, <<1, 2>>, <<2, 3>>, <<1, 1>>}, kl \in B, du \in B, ac \in B, ao \in B, de \in B, iv \in B,
-              md \in {<<"all", <<>>>>, <<"classes", <<EX \o "C">>>>, <<"classes", <<EX \o "D", EX \o "C">>>>}, cp \in {0, 0, 1, 2}}
+              md \in SimModes, cp \in {0, 0, 1, 2}, ors \in {<<TRUE, FALSE>>, <<TRUE, FALSE>>, <<FALSE, FALSE>>, <<FALSE, TRUE>>}, re \in {TRUE, TRUE, FALSE}}
 (* the simulator draws an action first and a successor second: one generating action per subject keeps the walk adding triples
    (stopping has weight 1 in 7 once three triples are in), so documents spread over 3..14 triples *)
+\* selectors are solved on a second parse that renames blank nodes (known finding KF.C10.bnodeselector): shape-map behaviours
+\* are generated over IRI nodes
+Usable(t) == cfg.mode \in {"shapemap", "mixed"} => (t[1][1] # "BNode" /\ t[3][1] # "BNode")
 GenS(s) == /\ pc = "gen" /\ Len(doc) < K
-           /\ \E i \in 1..Len(U) : /\ U[i][1] = s /\ U[i] \notin ToSet(doc)
+           /\ \E i \in 1..Len(U) : /\ U[i][1] = s /\ U[i] \notin ToSet(doc) /\ Usable(U[i])
                                    /\ doc' = Append(doc, U[i]) /\ last' = i
            /\ UNCHANGED <<cfg, pc, inst, profs, out>>
 GenRest == /\ pc = "gen" /\ Len(doc) < K
